@@ -119,6 +119,24 @@ func protocolMore(t *testing.T, bind *Binding, job *Job, p *sdl.Program, acc *st
 				}
 				do(faultSpec(s, o, site))
 			}
+			// several invocations of one custom scanner fail in the same (parallel) round
+			byScanner := map[string][]string{}
+			for _, site := range sites {
+				if strings.HasPrefix(site, "scan:") {
+					id := site[5:strings.IndexByte(site, '@')]
+					byScanner[id] = append(byScanner[id], site)
+				}
+			}
+			for _, id := range sdl.SortedKeys(byScanner) {
+				ss := byScanner[id]
+				if len(ss) >= 2 {
+					do(faultSpec(s, o, ss[0], ss[len(ss)-1]))
+				}
+				if len(ss) >= 3 {
+					do(faultSpec(s, o, ss[0], ss[len(ss)/2], ss[len(ss)-1]))
+					do(faultSpec(s, o, ss...))
+				}
+			}
 			// sampled pairs (two faults can only both fire where callbacks run concurrently or
 			// the first is swallowed; the second must then still be reported)
 			npairs := int(param(job, "faultPairs", 4))
